@@ -145,12 +145,17 @@ type c08Case struct {
 	Events    []c08Ev  `json:"events"`
 	Class     string   `json:"class"`
 	Skipped   bool     `json:"skipped,omitempty"` // not run (an earlier genRequestID case hung)
+	Push       bool   `json:"push,omitempty"`        // trace: proxy 0 has a push callback; id-0 packets on its connections must reach it
 	Procs      int    `json:"procs,omitempty"`       // trace: GOMAXPROCS during the scenario (0 = unchanged)
 	Spin       int64  `json:"spin,omitempty"`        // wrap: allocations between call A and call B
 	WrapServed []bool `json:"wrap_served,omitempty"` // wrap, observed: did A / B come back with a reply
 }
 
 const c08Poison = 0xFFFFFFFF
+
+// c08Patience is the deadline of a caller that is going to be answered: far beyond anything a loaded machine needs (the
+// scripted server answers within milliseconds of having collected the round's requests).
+const c08Patience = 20 * time.Second
 
 func c08Payload(k uint32, variant uint32) []byte {
 	b := make([]byte, 8)
@@ -290,6 +295,15 @@ func c08RunTrace(c *c08Case) []Failure {
 		})
 		defer c08SetHook(obj, nil)
 	}
+	if c.Push {
+		sps[0].SetPushCallback(func(b []byte) {
+			e := c08Ev{Kind: "push"}
+			if len(b) == 8 {
+				e.Pay = binary.BigEndian.Uint64(b)
+			}
+			log.add(e)
+		})
+	}
 	pendingIDs := func() []int32 {
 		var ids []int32
 		for _, sp := range sps {
@@ -387,6 +401,9 @@ func c08RunTrace(c *c08Case) []Failure {
 	var lateWg sync.WaitGroup
 	var doneList []int // callers known to have returned
 	patient := func(k int) bool { return c.Acts[k] != "none" && c.Acts[k] != "late" }
+	replied := map[int]time.Time{} // callers the server has written the genuine reply to, and when
+	started := map[int]time.Time{}
+	wantPush := map[uint64]int{} // payloads of id-0 packets written to connections of the proxy that has a push callback
 
 	for round := 0; round < rounds; round++ {
 		lo, hi := round*c.N, (round+1)*c.N
@@ -397,7 +414,7 @@ func c08RunTrace(c *c08Case) []Failure {
 			wg.Add(1)
 			go func(k int) {
 				defer wg.Done()
-				to := 8 * time.Second
+				to := c08Patience
 				if !patient(k) {
 					to = time.Duration(c.TimeoutMs) * time.Millisecond
 				}
@@ -420,6 +437,7 @@ func c08RunTrace(c *c08Case) []Failure {
 				close(ended[k])
 			}(k)
 		}
+		started[round] = time.Now()
 		close(startCh)
 
 		// server script: collect the round's requests, then handle them in the scripted order
@@ -470,14 +488,19 @@ func c08RunTrace(c *c08Case) []Failure {
 			if !ok {
 				continue
 			}
-			genuine := func() { send(s.conn, s.id, c08Payload(uint32(k), 0), false) }
+			genuine := func() {
+				replied[k] = time.Now()
+				send(s.conn, s.id, c08Payload(uint32(k), 0), false)
+			}
 			switch c.Acts[k] {
 			case "reply":
 				genuine()
-				select { // remember completed callers for the "already completed" forgery
-				case <-ended[k]:
-					doneList = append(doneList, k)
-				case <-time.After(20 * time.Millisecond):
+				if len(doneList) == 0 { // remember a completed caller for the "already completed" forgery
+					select {
+					case <-ended[k]:
+						doneList = append(doneList, k)
+					case <-time.After(20 * time.Millisecond):
+					}
 				}
 			case "dup":
 				genuine()
@@ -495,6 +518,9 @@ func c08RunTrace(c *c08Case) []Failure {
 					send(s.conn, s.id, c08Payload(uint32(k), 7), false)
 				}(k, s)
 			case "f0": // id 0 (push) carrying a poisoned payload, then the genuine reply
+				if c.Push && k%nprox == 0 {
+					wantPush[binary.BigEndian.Uint64(c08Payload(c08Poison, uint32(k)))]++
+				}
 				send(s.conn, 0, c08Payload(c08Poison, uint32(k)), false)
 				genuine()
 			case "funk": // ids nobody registered
@@ -533,9 +559,7 @@ func c08RunTrace(c *c08Case) []Failure {
 								j = kk
 							case <-time.After(2 * time.Second):
 							}
-							if j >= 0 {
-								break
-							}
+							break // one wait at most
 						}
 					}
 				}
@@ -554,6 +578,26 @@ func c08RunTrace(c *c08Case) []Failure {
 	}
 	lateWg.Wait()
 	time.Sleep(30 * time.Millisecond) // let the receivers of the late packets run
+	if c.Push {
+		nwant := 0
+		for _, n := range wantPush {
+			nwant += n
+		}
+		for i := 0; i < 100; i++ { // push callbacks run in their receiver goroutines: up to 2 s
+			log.mu.Lock()
+			got := 0
+			for _, e := range log.ev {
+				if e.Kind == "push" {
+					got++
+				}
+			}
+			log.mu.Unlock()
+			if got >= nwant {
+				break
+			}
+			time.Sleep(20 * time.Millisecond)
+		}
+	}
 	c.Pending = pendingIDs()
 	cmu.Lock()
 	c.NConn = len(conns)
@@ -570,6 +614,26 @@ func c08RunTrace(c *c08Case) []Failure {
 	log.mu.Unlock()
 
 	// ---- L3 monitors
+	if c.Push {
+		gotPush := map[uint64]int{}
+		for _, e := range c.Events {
+			if e.Kind == "push" {
+				gotPush[e.Pay]++
+			}
+		}
+		for pay, n := range wantPush {
+			if gotPush[pay] != n {
+				fs = append(fs, Failure{Sig: "push/id-0-packet-not-handed-to-push-callback", Desc: fmt.Sprintf("%d packet(s) with request id 0 and payload %016x were written to a connection of the proxy with a push callback; the callback saw %d", n, pay, gotPush[pay])})
+				break
+			}
+		}
+		for pay, n := range gotPush {
+			if wantPush[pay] == 0 {
+				fs = append(fs, Failure{Sig: "push/callback-got-a-packet-that-was-not-a-push", Desc: fmt.Sprintf("the push callback was called %d time(s) with payload %016x, which was never sent under request id 0 to that proxy", n, pay)})
+				break
+			}
+		}
+	}
 	active := map[int32]int{}
 	idOf := map[int]int32{}
 	for _, e := range c.Events {
@@ -595,9 +659,8 @@ func c08RunTrace(c *c08Case) []Failure {
 		if o.got && !patient(k) {
 			fs = append(fs, Failure{Sig: "call/reply-without-source", Desc: fmt.Sprintf("caller %d (act %s) received a reply although none had been sent before it returned", k, c.Acts[k])})
 		}
-		_, seenReq := reqs[k]
-		if !o.got && seenReq && patient(k) {
-			fs = append(fs, Failure{Sig: "call/matching-reply-not-delivered", Desc: fmt.Sprintf("caller %d (act %s, id %d): the server sent the matching reply seconds before the 8 s deadline but the call ended without it", k, c.Acts[k], reqs[k].id)})
+		if at, ok := replied[k]; ok && !o.got && patient(k) && at.Sub(started[k/c.N]) < c08Patience/2 {
+			fs = append(fs, Failure{Sig: "call/matching-reply-not-delivered", Desc: fmt.Sprintf("caller %d (act %s, id %d): the server wrote the matching reply %v after the round started, the caller's deadline was %v, but the call ended without it", k, c.Acts[k], reqs[k].id, at.Sub(started[k/c.N]).Round(time.Millisecond), c08Patience)})
 		}
 	}
 	if len(c.Pending) != 0 {
@@ -927,6 +990,11 @@ func c08Gen(tier string, rng *rand.Rand) []c08Case {
 		}
 		cs = append(cs, c08Case{Kind: "mtbig", Start: int32(s), Calls: threads * per, Threads: threads, Class: fmt.Sprintf("mtbig/%s/t%d", c08Zone(s, maxi), threads)})
 	}
+	// the wrap-around witness on the code (2^31 allocations: some tens of seconds). Before the scripted-server scenarios:
+	// a proxy with a push callback starts a keep-alive ticker that may take an id minutes later.
+	if tier == "thorough" {
+		cs = append(cs, c08Case{Kind: "wrap", Start: 1, Spin: int64(1)<<31 - 3, Class: "wrap/full-cycle"})
+	}
 	// scripted-server scenarios
 	sizes := []int{1, 1, 1, 4, 4, 4, 4, 4, 32, 32, 32, 256, 256}
 	if tier == "thorough" {
@@ -949,6 +1017,7 @@ func c08Gen(tier string, rng *rand.Rand) []c08Case {
 		if n == 1 {
 			c.Proxies = 1
 		}
+		c.Push = si%3 == 1
 		if tier == "thorough" {
 			c.Procs = []int{0, 1, 2, 4, 0, 16}[si%6]
 		} else if si%6 == 5 {
@@ -969,6 +1038,10 @@ func c08Gen(tier string, rng *rand.Rand) []c08Case {
 			c.Acts = append(c.Acts, a)
 			used[a] = true
 		}
+		if c.Push {
+			c.Acts[0] = "f0"
+			used["f0"] = true
+		}
 		for r := 0; r < c.Rounds; r++ {
 			for _, k := range rng.Perm(n) {
 				c.Order = append(c.Order, r*n+k)
@@ -987,11 +1060,8 @@ func c08Gen(tier string, rng *rand.Rand) []c08Case {
 			ks = append(ks, a)
 		}
 		sort.Strings(ks)
-		c.Class = fmt.Sprintf("trace/n%d/r%d/p%d/g%d/ids%d/%s", n, c.Rounds, c.Proxies, c.Procs, si%4, strings.Join(ks, "+"))
+		c.Class = fmt.Sprintf("trace/n%d/r%d/p%d/g%d/push%v/ids%d/%s", n, c.Rounds, c.Proxies, c.Procs, c.Push, si%4, strings.Join(ks, "+"))
 		cs = append(cs, c)
-	}
-	if tier == "thorough" { // the wrap-around witness on the code (2^31 allocations: some tens of seconds)
-		cs = append(cs, c08Case{Kind: "wrap", Start: 1, Spin: int64(1)<<31 - 3, Class: "wrap/full-cycle"})
 	}
 	return cs
 }
